@@ -659,7 +659,7 @@ func runC19(sc *Scenario, st *Stats) []Violation {
 		for c := range conc.res {
 			for i := range conc.res[c] {
 				r := &conc.res[c][i]
-				if strings.Contains(r.Err, "simfault#") || strings.Contains(r.BuildErr, "simfault#") {
+				if looksFaulted(r.Err) || looksFaulted(r.BuildErr) {
 					continue
 				}
 				k := sc.Clients[c].Stmts[i].Mode + "|" + sc.Clients[c].Stmts[i].Text
